@@ -12,10 +12,11 @@
     transcriptions of the Rust (Model/Date.v, Model/DateExtra.v) with trapping integer arithmetic:
     [Val v] = returns v, [Panic] = traps.  Every equation [f args = Val ...] therefore also says that
     [f] does not trap on those arguments. *)
-From Coq Require Import ZArith List Bool.
+From Coq Require Import ZArith List Bool String.
+Import ListNotations.
 From V Require Import Base.Int Base.IO Spec.Gregorian Model.Date Model.DateExtra
-  Proofs.C08Sweeps Proofs.C08Date Proofs.C08Days Proofs.C08AddDays Proofs.C08 Proofs.C08Dt.
-From V Require Model.Time Model.DateTime Model.C08.
+  Proofs.C08Sweeps Proofs.C08Date Proofs.C08Days Proofs.C08AddDays Proofs.C08 Proofs.C08Dt Proofs.C08Holds.
+From V Require Model.Time Model.DateTime Model.C08 Judge.C08.
 Import V.Model.C08.
 Open Scope Z_scope.
 
@@ -238,6 +239,40 @@ Theorem C08_succ_pred : forall y o d, repr y o d ->
   pred_opt d = Val (if dn_in_range (dn_of_yo y o - 1) then Some (date_of_dn (dn_of_yo y o - 1)) else None).
 Proof. exact succ_pred_spec. Qed.
 Print Assumptions C08_succ_pred.
+
+(* ---- the property's executable statement (Judge/C08.v: written from the property text over
+   Spec/Gregorian.v, imports nothing of the model) accepts the model's output on every in-domain case
+   of these operations.  [denc y o] = the case encoding (y, o) of a date; [fname f] the field names
+   year, month, month0, day, day0, ordinal, ordinal0 (f = 0..6); [field_arg_ok]: i32 for year, u32 else. *)
+Theorem C08_holds_addm : forall y o n, year_in_range y = true -> valid_yo y o = true -> in_u32 n = true ->
+  V.Judge.C08.judge (B"d8.addm") [denc y o; VInt n] (V.Model.C08.run (B"d8.addm") [denc y o; VInt n]) = JOk.
+Proof. exact holds_addm. Qed.
+Print Assumptions C08_holds_addm.
+Theorem C08_holds_subm : forall y o n, year_in_range y = true -> valid_yo y o = true -> in_u32 n = true ->
+  V.Judge.C08.judge (B"d8.subm") [denc y o; VInt n] (V.Model.C08.run (B"d8.subm") [denc y o; VInt n]) = JOk.
+Proof. exact holds_subm. Qed.
+Print Assumptions C08_holds_subm.
+Theorem C08_holds_with : forall f y o x, 0 <= f <= 6 -> year_in_range y = true -> valid_yo y o = true ->
+  V.Judge.C08.field_arg_ok f x = true ->
+  V.Judge.C08.judge (B"d8.with") [VStr (fname f); denc y o; VInt x]
+    (V.Model.C08.run (B"d8.with") [VStr (fname f); denc y o; VInt x]) = JOk.
+Proof. exact holds_with. Qed.
+Print Assumptions C08_holds_with.
+Theorem C08_holds_week_bounds : forall y o w, year_in_range y = true -> valid_yo y o = true -> 0 <= w <= 6 ->
+  V.Judge.C08.judge (B"d8.wfirst") [denc y o; VInt w] (V.Model.C08.run (B"d8.wfirst") [denc y o; VInt w]) = JOk /\
+  V.Judge.C08.judge (B"d8.wlast") [denc y o; VInt w] (V.Model.C08.run (B"d8.wlast") [denc y o; VInt w]) = JOk.
+Proof. exact holds_week_bounds. Qed.
+Print Assumptions C08_holds_week_bounds.
+Theorem C08_holds_nthwd : forall y m w n, in_i32 y = true -> in_u32 m = true -> 0 <= w <= 6 -> in_u8 n = true ->
+  V.Judge.C08.judge (B"d8.nthwd") [VInt y; VInt m; VInt w; VInt n]
+    (V.Model.C08.run (B"d8.nthwd") [VInt y; VInt m; VInt w; VInt n]) = JOk.
+Proof. exact holds_nthwd. Qed.
+Print Assumptions C08_holds_nthwd.
+Theorem C08_holds_years : forall y1 o1 y0 o0, year_in_range y1 = true -> valid_yo y1 o1 = true ->
+  year_in_range y0 = true -> valid_yo y0 o0 = true ->
+  V.Judge.C08.judge (B"d8.years") [denc y1 o1; denc y0 o0] (V.Model.C08.run (B"d8.years") [denc y1 o1; denc y0 o0]) = JOk.
+Proof. exact holds_years. Qed.
+Print Assumptions C08_holds_years.
 
 (* ---- the hypotheses are inhabited: 2024-01-31 (+1 month -> leap day), the range ends *)
 Example C08_ex_repr : repr 2024 31 (mkdate 2024 31) /\ repr (-262143) 1 (mkdate (-262143) 1)
